@@ -7,6 +7,7 @@ package c11
 import (
 	"encoding/json"
 	"fmt"
+	"github.com/pion/interceptor"
 	"sort"
 	"strings"
 	"time"
@@ -67,6 +68,9 @@ var symNames = [nSyms]string{"BindRTCPWriter", "BindRTCPReader", "ReadRTCP", "To
 type config struct {
 	Kind  string `json:"kind"`
 	Depth int    `json:"depth"`
+	// Prefix is a history applied before the search starts: the search then explores every sequence of
+	// Depth symbols from the state it reaches (a stream that is bound and has carried traffic with gaps)
+	Prefix []int `json:"prefix,omitempty"`
 }
 
 type pendingOp struct {
@@ -230,6 +234,10 @@ func (sys *system) apply(sym int) (string, error) {
 	case sUnbindL1, sUnbindL2:
 		sys.lBound[k], sys.lUnbound[k] = false, true
 		info := s.Locals[k].Info
+		if k == 1 {
+			// the stream is identified by its SSRC: what it negotiated may have changed since it was bound
+			info = &interceptor.StreamInfo{ID: info.ID, SSRC: info.SSRC}
+		}
 		_, err := sys.runOp(name, true, func() { s.I.UnbindLocalStream(info) })
 		return "ul", err
 	case sWriteL1, sWriteL2:
@@ -256,6 +264,9 @@ func (sys *system) apply(sym int) (string, error) {
 	case sUnbindR1, sUnbindR2:
 		sys.rmBound[k], sys.rUnbound[k] = false, true
 		info := s.Remotes[k].Info
+		if k == 1 {
+			info = &interceptor.StreamInfo{ID: info.ID, SSRC: info.SSRC}
+		}
 		_, err := sys.runOp(name, true, func() { s.I.UnbindRemoteStream(info) })
 		return "urm", err
 	case sReadR1, sReadR2:
@@ -501,6 +512,27 @@ func configs(tier string) []config {
 		}
 		out = append(out, config{Kind: k.Name, Depth: d})
 	}
+	// the same search from warmed-up states: writer (and reader) bound, stream 1 bound, two traffic calls
+	for _, k := range hk.Kinds() {
+		cp := kindCaps[k.Name]
+		d := 4
+		if tier == "thorough" {
+			d = 5
+		}
+		var pre []int
+		if cp.rtcpW {
+			pre = append(pre, sBindW)
+		}
+		if cp.rtcpR {
+			pre = append(pre, sBindR)
+		}
+		if cp.remote {
+			out = append(out, config{Kind: k.Name, Depth: d, Prefix: append(append([]int{}, pre...), sBindR1, sReadR1, sReadR1)})
+		}
+		if cp.local {
+			out = append(out, config{Kind: k.Name, Depth: d, Prefix: append(append([]int{}, pre...), sBindL1, sWriteL1, sWriteL1)})
+		}
+	}
 	return out
 }
 
@@ -518,8 +550,8 @@ func init() {
 				b, _ := json.Marshal(c)
 				n = append(n, string(b))
 			}
-			for _, c := range configs(tier) {
-				n = append(n, "rebind-differential:"+c.Kind)
+			for _, k := range hk.Kinds() {
+				n = append(n, "rebind-differential:"+k.Name)
 			}
 			return n
 		},
@@ -530,16 +562,17 @@ func init() {
 					d = 5
 				}
 				r := &hk.JobResult{Exhaustive: true, Bounds: map[string]any{"rebind_depth": d, "rebind_operations": len(rebindOps)}}
-				rebindJob(cs[i-len(cs)].Kind, d, r)
+				rebindJob(hk.Kinds()[i-len(cs)].Name, d, r)
 				return r
 			}
 			c := configs(tier)[i]
 			r := &hk.JobResult{Exhaustive: true, Bounds: map[string]any{"depth": c.Depth}}
 			allowedAfter := map[string][]int{}
 			key := func(h []int) string { return fmt.Sprint(h) }
+			full := func(h []int) []int { return append(append([]int{}, c.Prefix...), h...) }
 			s := &hk.Search{Alphabet: nSyms, Depth: c.Depth, Dedup: true, Deadline: deadline, MaxViolations: 12,
 				Exec: func(h []int) hk.Step {
-					st := exec(c, h)
+					st := exec(c, full(h))
 					if st.allowed != nil && len(h) < c.Depth {
 						allowedAfter[key(h)] = st.allowed
 					}
@@ -547,6 +580,9 @@ func init() {
 				},
 				Allowed: func(h []int) []int {
 					if len(h) == 0 {
+						if len(c.Prefix) > 0 {
+							return exec(c, c.Prefix).allowed
+						}
 						sys := &system{cp: kindCaps[c.Kind], s: hk.NewSession(nil, nil)}
 						return sys.allowed()
 					}
@@ -554,7 +590,7 @@ func init() {
 					delete(allowedAfter, key(h))
 					return a
 				},
-				Describe: func(h []int) any { return describe(c, h) }}
+				Describe: func(h []int) any { return describe(c, full(h)) }}
 			s.Run().Fill(r)
 			return r
 		},
